@@ -17,6 +17,8 @@ FEED_CATS = DISPLAY_CATS + ('convert-from-unit', 'qstr', 'storage-label', 'add-u
 
 def run(ctx):
     model = ctx.model
+    from . import unitspec as _us
+    _us.api_verified(ctx, 'C19.R1')
     n = 0
     for q in ('Container.__init__', 'Container.__init__#contents', 'Container._transfer', 'Container.dilute',
               'Container.fill_to', 'Container.dataframe'):
@@ -98,6 +100,56 @@ def same_source(ctx):
     # amounts printed by bake are computed from the state before / after this step, not from the declared objects
     from .c08 import stale_state_reads
     stale_state_reads(ctx, 'C19.R3')
+    transfer_display_prestate(ctx, 'C19.R3')
+
+
+def transfer_display_prestate(ctx, rule):
+    """The amount a transfer instruction states is a fraction `ratio * X` of the source: X must be read from the state
+    before the per-substance update (a fraction of what is left afterwards is not what was moved)."""
+    from .c03 import find_ratio, strip_clamp
+    from ..flow import definitions_of
+    model = ctx.model
+    fi = model.func('Container._transfer')
+    ff = ctx.flow(fi.qualname)
+    found = find_ratio(ff)
+    if found is None:
+        return
+    ratio_val, loop = found
+    entry = ff.state_before(loop)
+    rid = {d.defid for d in definitions_of(ratio_val) if isinstance(d, Ref)} | \
+          {d.defid for d in definitions_of(strip_clamp(ratio_val)) if isinstance(d, Ref)}
+    if isinstance(ratio_val, Ref):
+        rid.add(ratio_val.defid)
+
+    def is_ratio(x):
+        return isinstance(x, Ref) and (x.defid in rid or any(isinstance(d, Ref) and d.defid in rid for d in definitions_of(x)))
+    n = 0
+    for stmt, target, key, value, before, rt in ff.stores:
+        if not (key or '').endswith('.instructions'):
+            continue
+        for m in deep_walk(value):
+            if not (isinstance(m, ast.BinOp) and isinstance(m.op, ast.Mult)):
+                continue
+            sides = [(m.left, m.right), (m.right, m.left)]
+            for r, x in sides:
+                if not is_ratio(r):
+                    continue
+                n += 1
+                late = []
+                for q in deep_walk(x, follow_refs=False):
+                    its = [q.iter] if isinstance(q, LoopVar) else [q]
+                    for it in its:
+                        for p_ in deep_walk(it, follow_refs=False):
+                            k = getattr(p_, 'pkey', None)
+                            if k and (k.endswith('.contents') or '.contents[' in k) and getattr(p_, 'ver', None) is not None:
+                                base = k.split('.contents')[0] + '.contents'
+                                if p_.ver > entry.vers.get(k, entry.vers.get(base, 0)):
+                                    late.append(k)
+                ctx.ob(rule, fi, getattr(m, 'lineno', stmt.lineno), 'the stated amount is a fraction of the source before the transfer',
+                       not late, fact=f"ratio * {show(x, 40)}" + (f": reads {sorted(set(late))} after the update" if late else ''),
+                       why='the instruction states a fraction of what is left after the transfer, not of what was there',
+                       key='displayed fraction of the post-transfer state')
+    ctx.count('displayed_fractions', n)
 
 
 def _from_operands(e):
